@@ -822,11 +822,16 @@ func (m *Memberlist) sendMsg(a Address, msg []byte) error {
 	msgs = append(msgs, msg)
 	msgs = append(msgs, extra...)
 
-	// Create a compound message
-	compound := makeCompoundMessage(msgs)
-
-	// Send the message
-	return m.rawSendMsgPacket(a, nil, compound.Bytes())
+	// Create one or more compound messages: a compound message holds at most
+	// 255 parts, with many tiny broadcasts the count byte would wrap around
+	// and the receiver would silently drop the rest.
+	var err error
+	for _, compound := range makeCompoundMessages(msgs) {
+		if sendErr := m.rawSendMsgPacket(a, nil, compound.Bytes()); sendErr != nil && err == nil {
+			err = sendErr
+		}
+	}
+	return err
 }
 
 // rawSendMsgPacket is used to send message via packet to another host without
